@@ -219,6 +219,19 @@ def mentions(n: ast.AST, names: set[str]) -> bool:
     return any(isinstance(x, ast.Name) and x.id in names for x in ast.walk(n))
 
 
+def cache_key_shape(cls: ast.ClassDef) -> str:
+    """`Evaluator._cache_key`: hash((root, tree)), extended by the origin tags iff repetition bounds exist.
+    The Emit model identifies a tree with its key, so what matters is that the key is a function of the
+    individual alone (no counters, no instance history); any other body is refused."""
+    body = [ast.unparse(x) for x in strip_doc(find_func(cls, "_cache_key"))]
+    want = ["key = hash((individual.get_root(), individual))",
+            "if self._repetition_bounds_constraints:\n    key = hash((key, individual.get_root().origin_signature()))",
+            "return key"]
+    if body != want:
+        raise Refusal(f"Evaluator._cache_key has an unexpected body: {body}")
+    return "hash((individual.get_root(), individual)) [+ origin_signature() when repetition bounds exist]"
+
+
 def translate_evaluate_individual(cls: ast.ClassDef) -> dict[str, Any]:
     check_helpers(cls)
     fn = find_func(cls, "evaluate_individual")
@@ -303,10 +316,15 @@ def translate_evaluate_individual(cls: ast.ClassDef) -> dict[str, Any]:
             if len(s.targets) == 1 and isinstance(s.targets[0], ast.Name):
                 name = s.targets[0].id
                 if name == "key":
-                    if ast.unparse(s.value) != "hash((individual.get_root(), individual))":
-                        raise Refusal(f"key is now `{ast.unparse(s.value)}`")
+                    src_key = ast.unparse(s.value)
+                    if src_key == "self._cache_key(individual)":
+                        # since a55700f5 the key is computed by Evaluator._cache_key: the tree hash, extended
+                        # by the origin tags when repetition bounds exist. Any other shape is refused.
+                        src_key = cache_key_shape(cls)
+                    elif src_key != "hash((individual.get_root(), individual))":
+                        raise Refusal(f"key is now `{src_key}`")
                     cx.env[name] = Opaque("the tree's hash key")
-                    info["key"] = ast.unparse(s.value)
+                    info["key"] = src_key
                     return
                 try:
                     e = cx.expr(s.value)
